@@ -378,7 +378,21 @@ def a4(run, project, mod, roles):
     for w in ("process_tpms", "process_command", "process_response", "process_tpm2b"):
         fn = roles.walkers[w]
         rets = [r for r in walk_no_nested(fn) if isinstance(r, ast.Return) and isinstance(r.value, ast.Tuple) and len(r.value.elts) == 2]
-        bad = [r for r in rets if norm(r.value.elts[1]) not in ("tpm_type(**values)", "None")]
+
+        def by_name(e, t=fn.args.args[0].arg):
+            """None, or the layout class called with members given by name only: `T(**values)`, `T(**{f.name: v, ...})`"""
+            if isinstance(e, ast.Constant) and e.value is None:
+                return True
+            if not (isinstance(e, ast.Call) and isinstance(e.func, ast.Name) and e.func.id in (t, "tpm_type") and not e.args and e.keywords):
+                return False
+            for k_ in e.keywords:
+                if k_.arg is not None or isinstance(k_.value, ast.Name):
+                    continue
+                if isinstance(k_.value, ast.Dict) and all(isinstance(x, ast.Attribute) and x.attr == "name" for x in k_.value.keys):
+                    continue
+                return False
+            return True
+        bad = [r for r in rets if not by_name(r.value.elts[1])]
         run.ob("A4", rets and not bad, f"{w}: the decoder's object is tpm_type(**values)", f"returns {[norm(r.value.elts[1]) for r in bad]}",
                module=roles.mod, node=bad[0] if bad else fn, func=w, construct=f"{w} object construction")
     # ---- area types resolved through the same tables as the decoder
